@@ -26,6 +26,7 @@ import wave
 import numpy as np
 
 import common
+import c11
 import c12
 import sph_util
 from pydrobert.speech import util
@@ -90,7 +91,7 @@ def check_behaviour(run, k, beh, ulaw, tmp, rng):
                     f.write(blob)
                 got = util.read_signal(p)
             else:
-                got = util.read_signal(io.BytesIO(blob), force_as="sph")
+                got = util.read_signal(io.BytesIO(blob) if k % 4 else io.BufferedReader(c11.NoSeek(blob)), force_as="sph")  # (k % 4 == 0: a pipe)
     except Exception as e:
         run.violation({"kind": "shorten_decode_raised", "hdr": hdr, "commands": beh["note"], "error": repr(e), "bits": bits, "samples": data})
         return True
